@@ -11,6 +11,7 @@ EXPLANATION = ("C16 (narrow): websocket frame checks (minimal length encoding, m
                "bookkeeping of the HTTP reader advances all cursors of one transfer by the same count. Segmentation "
                "independence and exact reassembly are value-level and not decided."
                " Also: control frames leave the reassembly flag alone (R9); a request refused on a kept connection has its body accounted for (R10).")
+EXPLANATION += ' Round 3: Content-Length is used only after a complete numeric conversion (R11); the chunk decoder enters CS_LEN only over the first-character test (R12).'
 
 WS = "supplemental/websocket/websocket.c"
 
